@@ -66,6 +66,24 @@ def sx_str(s):
     return "".join(out)
 
 
+_JOBS = []
+_PARENT = None
+
+
+def _run_job(i):
+    sys.setrecursionlimit(10000)
+    sub = _PARENT.sub()
+    t0 = time.time()
+    try:
+        _JOBS[i](sub)
+        if os.environ.get("VERIF_VERBOSE"):
+            print("  job %d: %.1fs leaves=%d %s" % (i, time.time() - t0, sub.leaves, list(sub.entries)[:2]), flush=True)
+    except Exception as ex:  # a crashed worker is an engine problem, never a silent pass
+        import traceback
+        sub.engine_problems.append("worker %d crashed: %s %s" % (i, ex, traceback.format_exc()[-600:]))
+    return sub.summary()
+
+
 class Check:
     def __init__(self, pid, argv=None):
         self.pid = pid
@@ -158,6 +176,12 @@ class Check:
             v = z3.Int(k)
             dom.append(z3.Or([v == c for c in ch]))
         from mirsym.lazy import decision_constraints
+        seen_assumed = set()
+        for l in leaves:
+            for a in l.extra.get("assumed", ()):
+                if a.get_id() not in seen_assumed:
+                    seen_assumed.add(a.get_id())
+                    dom.append(a)
         pcs = []
         for l in leaves:
             cs = list(l.pc) + decision_constraints(l)
@@ -171,13 +195,19 @@ class Check:
             s.add(d)
         s.add(z3.Not(z3.Or(pcs)) if pcs else z3.BoolVal(True))
         r = s.check()
+        if r == z3.sat and os.environ.get("VERIF_VERBOSE"):
+            m = s.model()
+            print("  uncovered input class:", sorted((str(d), str(m[d])) for d in m.decls() if "value" in str(d) or "Lit" in str(d))[:40])
         self.solver_queries += 1
         self.solver_time += time.time() - t0
         if r == z3.unsat:
             self.discharged += 1
             return True
         self.exhaustive = False
-        self.engine_problems.append("%s: leaves are not exhaustive (%s)" % (entry, r))
+        hint = ""
+        if r == z3.sat:
+            m = s.model() if False else None
+        self.engine_problems.append("%s: leaves are not exhaustive (%s)%s" % (entry, r, hint))
         return False
 
     def reach(self, what):
@@ -225,6 +255,13 @@ class Check:
             return None, None
         return False, model
 
+    def implies(self, pc, claim):
+        """probe (not an obligation): does pc imply claim for all values?"""
+        o, d, so = self.obligations, self.discharged, self.smt_obligations
+        r, _ = self.smt_valid(pc, claim)
+        self.obligations, self.discharged, self.smt_obligations = o, d, so
+        return bool(r)
+
     def model_of(self, pc, extra=None):
         s = self._solver()
         s.push()
@@ -260,6 +297,69 @@ class Check:
 
     def engine(self, msg):
         self.engine_problems.append(msg)
+
+    # -------------------------------------------------------------- parallel jobs
+    COUNTERS = ("leaves", "branches", "obligations", "discharged", "smt_obligations", "native_agree", "solver_queries", "solver_time")
+
+    def sub(self):
+        """a fresh accumulator with the same identity (used inside worker processes)"""
+        c = Check.__new__(Check)
+        c.__dict__.update(self.__dict__)
+        for k in self.COUNTERS:
+            setattr(c, k, 0)
+        c.samples, c.violations, c.known_hits, c.engine_problems = [], [], [], []
+        c.functions, c.models, c.programs = set(), set(), set()
+        c.entries, c.must_reach, c.extra = {}, {}, {}
+        c.exhaustive = True
+        c._s = None
+        c._sq = 0
+        return c
+
+    def summary(self):
+        d = {k: getattr(self, k) for k in self.COUNTERS}
+        d.update(samples=self.samples, violations=self.violations, known_hits=self.known_hits, engine_problems=self.engine_problems,
+                 functions=sorted(self.functions), models=sorted(self.models), programs=sorted(self.programs), entries=self.entries,
+                 must_reach=self.must_reach, exhaustive=self.exhaustive)
+        return d
+
+    def merge(self, d):
+        for k in self.COUNTERS:
+            setattr(self, k, getattr(self, k) + d[k])
+        for sm in d["samples"]:
+            self.sample(sm)
+        for v in d["violations"]:
+            if v[0] not in [x[0] for x in self.violations]:
+                self.violations.append(tuple(v))
+        for h in d["known_hits"]:
+            if h[0] not in [x[0] for x in self.known_hits]:
+                self.known_hits.append(tuple(h))
+        self.engine_problems.extend(d["engine_problems"])
+        self.functions |= set(d["functions"])
+        self.models |= set(d["models"])
+        self.programs |= set(d["programs"])
+        for k, v in d["entries"].items():
+            e = self.entries.setdefault(k, {"leaves": 0, "returned": 0, "panicked": 0, "other": 0})
+            for kk, vv in v.items():
+                e[kk] = e.get(kk, 0) + vv
+        for k, v in d["must_reach"].items():
+            self.must_reach[k] = self.must_reach.get(k, 0) + v
+        self.exhaustive = self.exhaustive and d["exhaustive"]
+
+    def run_jobs(self, jobs, nproc=None):
+        """jobs: list of callables f(sub_check).  Run in forked worker processes and merge their results."""
+        import multiprocessing
+        global _JOBS, _PARENT
+        nproc = nproc or min(len(jobs), int(os.environ.get("VERIF_JOBS", "0")) or min(14, os.cpu_count() or 4))
+        if nproc <= 1 or len(jobs) <= 1:
+            for j in jobs:
+                j(self)
+            return
+        _JOBS = jobs
+        _PARENT = self
+        ctx = multiprocessing.get_context("fork")
+        with ctx.Pool(nproc) as pool:
+            for d in pool.imap_unordered(_run_job, range(len(jobs)), chunksize=1):
+                self.merge(d)
 
     # -------------------------------------------------------------- finish
     def finish(self):
